@@ -10,6 +10,8 @@ Driver for C06.  Values as in `Drivers/C04.lean` (`{"n":..}`, `{"nf":..}`, `{"s"
 * `{"op":"tell","policy":P,"objs":[V..]}` -> what `CBO._tell` hands to `Optimizer.tell`
 * `{"op":"filter","policy":P,"max_failures":n,"yi":[null|[rat..]..],"old":bool}`
 * `{"op":"run","policy":P,"max_failures":n,"n_init":k,"batches":[{"objs":[V..],"scaled":[rat..]}..]}`
+* `{"op":"opttell","policy":P,"max_failures":n,"n_init":k,"prev":[null|rat..],"ys":[null|rat..],"scaled":[rat..]}`
+  -> `Optimizer.tell` used directly: error kind (`exhausted`, `markerToSurrogate`, ..) or the fit input
 * `{"op":"regevo","cap":n,"items":[[id,V]..]}` -> ids in the population
 -/
 
@@ -147,6 +149,23 @@ def handle (j : Json) : Except String Json := do
             ("n_yi", Json.num (JsonNumber.fromNat st'.yi.length)),
             ("fit", match fit with | some f => ofRats f | none => Json.null)]]
     return Json.mkObj [("ok", true), ("batches", Json.arr out.toArray)]
+  | "opttell" =>
+    -- `Optimizer.tell(X, y)` used directly (no `CBO._tell` in front): y = null ("F") | rat
+    let p ← jPolicy (← field j "policy")
+    let mf ← (← field j "max_failures").getNat?
+    let n0 ← (← field j "n_init").getInt?
+    let told ← jList (fun v => match v with
+      | .null => pure Y.fail
+      | _ => do return Y.val (.fin (← jRat v))) (← field j "ys")
+    let prev ← jList (fun v => match v with
+      | .null => pure Y.fail
+      | _ => do return Y.val (.fin (← jRat v))) (fieldD j "prev" (Json.arr #[]))
+    let scaled ← jList jRat (← field j "scaled")
+    match optTell p mf { nInit := n0, yi := prev } told scaled with
+    | .error e => return Json.mkObj [("ok", true), ("err", optErrName e)]
+    | .ok (st', fit) =>
+      return Json.mkObj [("ok", true), ("err", Json.null), ("n_init", Json.num (JsonNumber.fromInt st'.nInit)),
+        ("fit", match fit with | some f => ofRats f | none => Json.null)]
   | "regevo" =>
     let cap ← (← field j "cap").getNat?
     let items ← (← field j "items").getArr?
